@@ -1,6 +1,7 @@
 """Per-property decision procedures (DESIGN.md section 6)."""
 import json
 import os
+import time
 
 import rpipe
 from render import TypeRender
@@ -595,6 +596,9 @@ def render_c16_input(inp, k):
     fields = 'a: u8, b: u16, c: u32, d: u64'
     if inp['kind'] == 'struct':
         return '%s struct T { %s }' % (attr, fields)
+    if 'PartialOrd' in others or 'Ord' in others:
+        # the ordering impls mention the discriminant integer type: the two widths of the model
+        return '%s enum T { V1 { %s } = 1, V2(u8, u16, u32, u64) = %d }' % (attr, fields, 2 if inp.get('width', 8) == 8 else 1000)
     return '%s enum T { V1 { %s }, V2(u8, u16, u32, u64) }' % (attr, fields)
 
 
@@ -617,7 +621,31 @@ def c16(ctx):
     ctx.coverage['states'] += st0['states']
     ctx.coverage['transitions'] += st0['transitions']
     ctx.coverage['mc_runs'] = st0['mc_runs'] + ctx.coverage['mc_runs']
-    ctx.coverage['model_regression'] = 'MC_C16_hashed.cfg violates Deterministic as expected (two Into targets, hash-map iteration order)'
+    neg2 = tlcmod.run_mc('MC_C16', 'MC_C16_memo.cfg', ctx.workdir, workers=2, timeout=300, tags=('INPUT',), heap='2g')
+    if neg2['violated'] != 'Deterministic':
+        raise ToolError('MC_C16_memo.cfg should violate Deterministic (regression test of the model), got: %s' % neg2['violated'])
+    ctx.coverage['model_regression'] = ('MC_C16_hashed.cfg (hash-map iteration order, two Into targets) and MC_C16_memo.cfg (per-process cache keyed by the type name) '
+                                        'violate Deterministic as expected')
+    # every trait family's run-time corpus, all rendered under the same type name `T`: what one expansion leaves behind
+    # in the process (if anything) is most likely keyed by a name, and a neighbour with the same name and another body
+    # is the history that exposes it
+    fams = [('MC_C03', TypeRender), ('MC_C04', LayoutRender), ('MC_C06', DebugRender), ('MC_C10', TypeRender)]
+    if not quick:
+        fams += [('MC_C02', TypeRender), ('MC_C05', TypeRender), ('MC_C07', TypeRender), ('MC_C08', DefaultRender), ('MC_C09', DerefRender), ('MC_C20', UnionRender)]
+    fam_items = []
+    st1 = dict(ctx.coverage)
+    for module, cls in fams:
+        fc = rpipe.model_check(ctx, [{'module': module, 'cfg': module + '_quick.cfg', 'workers': 8}], ['DoSeal'])
+        cap = 500 if quick else 5000
+        if len(fc) > cap:
+            step = len(fc) / float(cap)
+            fc = [fc[int(i * step)] for i in range(cap)]
+        for ci, c in enumerate(fc, 1):
+            fam_items.append(('%s.%d' % (module[3:], ci), cls(ci, c, 'C16', name='T').item(derive=False)))
+        st1['states'] += ctx.coverage['states']
+        st1['transitions'] += ctx.coverage['transitions']
+        st1['mc_runs'] = st1['mc_runs'] + ctx.coverage['mc_runs']
+    ctx.coverage.update({k: st1[k] for k in ('states', 'transitions', 'mc_runs')})
     exe = xchan.build(ctx)
     texts = []
     for n, inp in enumerate(uniq):
@@ -626,6 +654,7 @@ def c16(ctx):
     for ci, rec in enumerate(sites, 1):
         r = MultiRender(ci, rec['cfg'], 'C16', canonical=False, name='T')
         texts.append(('multi%d' % ci, r.item(derive=False)))
+    texts += fam_items
     meta = {}
     for tid, text in texts:
         meta[tid] = {'mode': 'same', 'g': tid}
@@ -641,15 +670,28 @@ def c16(ctx):
     from concurrent.futures import ThreadPoolExecutor
     with ThreadPoolExecutor(max_workers=min(8, len(passes))) as ex:
         results = list(ex.map(lambda reqs: xchan.expand1(exe, reqs), passes))
+    # the reference history: none at all -- every input alone in a freshly spawned process
+    t_f = time.time()
+    results.append(xchan.expand_fresh(exe, base))
+    ctx.info('%d inputs expanded alone in fresh processes, %.1fs' % (len(base), time.time() - t_f))
     trace = os.path.join(ctx.workdir, 'xtrace.ndjson')
     raw = []
+    # the trace is written group by group (all observations of one input together, the history-free one first, which
+    # is the one the trace specification learns); `reset` lets the specification forget finished groups
+    by_id = {}
+    fresh_pi = len(results) - 1
+    for pi, recs in enumerate(results):
+        for r in recs:
+            raw.append((pi, r))
+            by_id.setdefault(r['id'], []).append((0 if pi == fresh_pi else 1, pi, r))
     with open(trace, 'w') as f:
-        for pi, recs in enumerate(results):
-            for r in recs:
+        for tid, _ in texts:
+            first = True
+            for _k, pi, r in sorted(by_id.get(tid, []), key=lambda x: (x[0], x[1], x[2].get('rep', 0))):
                 e = {'ev': 'expand', 'id': r['id'], 'proc': pi, 'rep': r.get('rep', 0), 'outcome': r['outcome'],
-                     'out': xpipe.digest(r['out']) if r.get('out') is not None else '', 'mode': 'same', 'g': r['id'], 'expect': '', 'reset': False}
+                     'out': xpipe.digest(r['out']) if r.get('out') is not None else '', 'mode': 'same', 'g': r['id'], 'expect': '', 'reset': first}
+                first = False
                 f.write(json.dumps(e, separators=(',', ':')) + '\n')
-                raw.append((pi, r))
     res = xpipe.validate(ctx, trace)
     lines = rpipe.load_lines(trace, res['bad'])
     textmap = dict(texts)
@@ -667,10 +709,11 @@ def c16(ctx):
     ctx.coverage.update({
         'traces_validated_against_impl': res['n'] - len(res['bad']), 'trace_files': 1, 'trace_events': res['n'], 'trace_events_rejected': len(res['bad']),
         'programs': len(texts), 'evaluations': res['n'], 'distinct_nontrivial': len(texts),
-        'processes': nproc + 1, 'repetitions_in_process': 3,
+        'processes': nproc + 1 + len(base), 'repetitions_in_process': 3,
         'rule': 'inputs: every subset of four Into targets x {struct, enum} x {no other trait, Debug+Clone} in two attribute orders (from MC_C16), plus every multi-trait '
-                'configuration of the C14 model with mixed spellings; each input expanded 3 times in one process and once in each of several freshly spawned processes '
-                '(different hash seeds, different prior history: forward / reversed / rotated order); all token streams of one input must be equal; '
+                'configuration of the C14 model with mixed spellings, plus the run-time corpora of the trait families (ordering incl. explicit discriminants and reprs, Debug, Into; '
+                'all ten families in the thorough tier) -- every input is named `T`, so neighbours share the name and differ in the body; each input expanded 3 times in one process and once in each of several freshly spawned processes '
+                '(different hash seeds, different prior history: forward / reversed / rotated order) and once alone in a fresh process of its own (no history); all token streams of one input must be equal; '
                 'distinct_nontrivial = number of distinct inputs',
         'samples': [{'input': texts[5][1]}, {'input': texts[-1][1]}],
     })
@@ -745,6 +788,10 @@ def injected_item(rec):
         return '%sstruct T(%su8, u8);' % (head, fa)
     if base == 'struct1_tuple':
         return '%sstruct T(%su8);' % (head, fa)
+    if base == 'struct1_named':
+        return '%sstruct T { %sa: u8 }' % (head, fa)
+    if base == 'enum1_named1':
+        return '%senum T { %sV1 { %sa: u8 } }' % (head, va, fa)
     if base in ('enum1_named', 'enum1_named_texpr'):
         return '%senum T { %sV1 { %sa: u8, b: u8 } }' % (head, va, fa)
     if base == 'enum1_tuple':
@@ -1044,6 +1091,37 @@ def negative_corpora(ctx, quick):
 
 
 # ---------------------------------------------------------------- C17
+TYEXPR_SETS = [('Debug, Clone, PartialEq, Eq, PartialOrd, Ord, Hash, Default', '', ''),
+               ('Copy, Clone, Deref, DerefMut, Into(u8)', '#[educe(Deref, DerefMut)] ', '#[educe(Into(u8))] ')]
+
+
+def type_expression_inputs(ctx, quick):
+    """inputs from the type-expression grammar (spec/EduceTypes.tla): every type expression in every position where the
+    macro reads a type, under two trait sets"""
+    st = dict(ctx.coverage)
+    recs = model_check_tagged(ctx, [{'module': 'EduceTypes', 'cfg': 'MC_Types_quick.cfg' if quick else 'MC_Types_thorough.cfg', 'workers': 4, 'timeout': 1800}], 'TYEXPR')
+    for k in ('states', 'transitions'):
+        ctx.coverage[k] = ctx.coverage.get(k, 0) + st.get(k, 0)
+    ctx.coverage['mc_runs'] = st.get('mc_runs', []) + ctx.coverage.get('mc_runs', [])
+    out = []
+    g = "<'a, T: Tr>"
+    for r in recs:
+        ty, c = r['ty'], r['ctx']
+        if c == 'into_target':
+            out.append('#[educe(Into(%s))] struct S%s { #[educe(Into(%s))] f: u8, g: &\'a T }' % (ty, g, ty))
+            out.append('#[educe(Into(%s), Into(u8))] enum S { V1(u8), V2 { f: u8 } }' % ty)
+            continue
+        for traits, fa, aa in TYEXPR_SETS:
+            if c == 'field':
+                out.append('#[educe(%s)] struct S%s { %sa: u8, %sf: %s }' % (traits, g, aa, fa, ty))
+            elif c == 'tuple_field':
+                out.append('#[educe(%s)] struct S%s(%su8, %s%s);' % (traits, g, aa, fa, ty))
+            else:
+                dv = '#[educe(Default)] ' if 'Default' in traits else ''
+                out.append('#[educe(%s)] enum S%s { %sV1 { %sa: u8, %sf: %s }, V2(%s%s) }' % (traits, g, dv, aa, fa, ty, fa or aa, ty))
+    return out
+
+
 def c17(ctx):
     quick = ctx.tier == 'quick'
     recs = injection_records(ctx, quick)
@@ -1074,8 +1152,13 @@ def c17(ctx):
         rid = 's%d' % j
         requests.append({'id': rid, 'text': text})
         meta[rid] = {'mode': 'total'}
-    ctx.info('%d inputs (%d from the scanner model, %d structural, %d token mutations, %d stress)' %
-             (len(requests), len(recs), len(neg), len(muts), len(stress_inputs())))
+    tys = type_expression_inputs(ctx, quick)
+    for j, text in enumerate(tys):
+        rid = 'y%d' % j
+        requests.append({'id': rid, 'text': text})
+        meta[rid] = {'mode': 'total'}
+    ctx.info('%d inputs (%d from the scanner model, %d structural, %d token mutations, %d stress, %d from the type-expression grammar)' %
+             (len(requests), len(recs), len(neg), len(muts), len(stress_inputs()), len(tys)))
     recs_raw = xchan.expand(exe, requests)
     # inputs that do not even parse as a derive input are never handed to the macro by the compiler: drop them
     keep = [r for r in recs_raw if r['outcome'] not in ('lex', 'noinput')]
@@ -1105,7 +1188,8 @@ def c17(ctx):
         'programs': len(requests), 'evaluations': len(keep), 'distinct_nontrivial': len({r['text'] for r in requests}),
         'inputs_not_parsing_as_derive_input': dropped,
         'rule': 'all inputs of the scanner model (every value kind at every parameter of every trait at every position), the structural negatives, seeded token-level '
-                'mutations of those (delete / duplicate / swap / wrap in a group / replace a literal / splice) and depth/length stress inputs; inputs that do not parse as '
+                'mutations of those (delete / duplicate / swap / wrap in a group / replace a literal / splice), depth/length stress inputs, and every type expression of the '
+                'type grammar model (EduceTypes.tla: 19 leaves x 15 wrappers to depth 2, 3 in the thorough tier) as a field type (named / tuple / enum variant) and as an Into target; inputs that do not parse as '
                 'a derive input are dropped (the compiler never calls the macro on them); outcome must be ok or err; panics/hangs are confirmed through the real compiler',
         'samples': [{'input': muts[0] if muts else ''}, {'input': requests[3]['text']}],
     })
@@ -1489,7 +1573,7 @@ def c18(ctx):
     facts_path = os.path.join(ctx.workdir, 'facts.json')
     json.dump(facts, open(facts_path, 'w'))
     feats = facts['features']
-    res = tlcmod.run_mc('EduceFeatures', 'EduceFeatures.cfg', ctx.workdir, workers=4, timeout=600, tags=('BOUNDARY',), heap='4g', extra_env={'FACTS': facts_path})
+    res = tlcmod.run_mc('EduceFeatures', 'EduceFeatures.cfg', ctx.workdir, workers=4, timeout=600, tags=('BOUNDARY', 'DSITES'), heap='4g', extra_env={'FACTS': facts_path})
     ctx.info('TLC EduceFeatures: %s violated=%s' % (res['stats'], res['violated']))
     ctx.coverage['states'] = res['stats'].get('distinct', 0)
     ctx.coverage['transitions'] = res['stats'].get('generated', 0)
@@ -1504,6 +1588,9 @@ def c18(ctx):
         if m:
             predicted.append(sorted(x.strip().strip('"') for x in m.group(1).split(',') if x.strip()))
         ctx.note('the gating model predicts a broken subset (%s): %s' % (res['violated'], predicted))
+    dsites = sorted(res['tagged']['DSITES'][0], key=lambda x: (x['pos'], x['shape'])) if res['tagged'].get('DSITES') else []
+    if not dsites:
+        raise ToolError('EduceFeatures emitted no DSITES')
     boundary = [sorted(f for f, b in r['s'].items() if b) for r in res['tagged']['BOUNDARY']]
     rnd = random.Random(ctx.seed)
     subsets = []
@@ -1596,9 +1683,18 @@ def c18(ctx):
             reqs = [{'id': t, 'text': t} for t in mine]
             dis = [f for f in feats if f not in sub]
             reqs += [{'id': 'dis:' + f, 'text': '#[educe(%s)] struct T { a: u8 }' % f} for f in dis]
+            dis_text = {}
+            for en in sub:
+                for f in dis:
+                    for site in dsites:
+                        t = disabled_site_item(en, f, site, set(sub))
+                        if t:
+                            dis_text['dis:%s:%s:%s:%s' % (en, f, site['pos'], site['shape'])] = t
+            reqs += [{'id': k, 'text': t} for k, t in sorted(dis_text.items())]
             for r in xchan.expand1(exe, reqs):
                 if str(r['id']).startswith('dis:'):
-                    out.append({'op': 'disabled', 'features': sub, 'input': '#[educe(%s)] struct T { a: u8 }' % r['id'][4:], 'outcome': r['outcome'],
+                    text = dis_text.get(r['id']) or '#[educe(%s)] struct T { a: u8 }' % r['id'][4:]
+                    out.append({'op': 'disabled', 'features': sub, 'input': text, 'outcome': r['outcome'],
                                 'unsupported': 'unsupported trait' in (r.get('err') or '')})
                 else:
                     out.append({'op': 'expand', 'features': sub, 'input': r['id'], 'outcome': r['outcome'],
@@ -1636,10 +1732,43 @@ def c18(ctx):
                 'for ' + ('the subsets of size 1, 2, 11, 12, 24 seeded random ones, a sample of the subsets TLC flags as gate boundaries, and the empty set'
                           if quick else 'all 4095 subsets and the empty set') +
                 '; in-process expansion of inputs that only name enabled traits under a sample of subsets (singletons, coupled pairs, random) compared with the all-features '
-                'expansion, and one input per disabled trait; distinct_nontrivial = number of non-empty subsets built',
+                'expansion; every disabled trait named at the type level, at a variant and at a field (sites from EduceFeatures.DisabledSites: seven shapes incl. single-field / tuple structs and '
+                'unions) next to every enabled trait, so that each enabled handler\'s own attribute scan is the one that has to refuse it; distinct_nontrivial = number of non-empty subsets built',
         'samples': [builds[1], exps[0] if exps else {}],
     })
     ctx.assumptions += X_ASSUMPTIONS + ['cargo check of the proc-macro crate reports the same errors and warnings as a full build']
+
+
+def disabled_site_item(en, dis, site, enabled):
+    """an item that educes the enabled trait `en` (so that its handler runs) and names the disabled trait `dis` at the site"""
+    pos, shape = site['pos'], site['shape']
+    union = shape == 'union1'
+    if union and en in ('PartialOrd', 'Ord', 'Deref', 'DerefMut', 'Into'):
+        return None
+    tmeta = {'Into': 'Into(u8)'}.get(en, en)
+    if union and en in ('Debug', 'PartialEq', 'Hash'):
+        tmeta = '%s(unsafe)' % en
+    dmeta = {'Into': 'Into(u16)'}.get(dis, dis)
+    tl = '#[educe(%s%s)]' % (tmeta, ', ' + dmeta if pos == 'type' else '')
+    va = '#[educe(%s)] ' % dmeta if pos == 'variant' else ''
+    fa = '#[educe(%s)] ' % dmeta if pos == 'field' else ''
+    own = {'Deref': '#[educe(Deref)] ', 'DerefMut': '#[educe(DerefMut)] ', 'Into': '#[educe(Into(u8))] '}.get(en, '')
+    dv = '#[educe(Default)] ' if en == 'Default' else ''
+    if shape == 'struct1_named':
+        return '%s struct T { %sa: u8 }' % (tl, fa)
+    if shape == 'struct1_tuple':
+        return '%s struct T(%su8);' % (tl, fa)
+    if shape == 'struct2_named':
+        return '%s struct T { %sa: u8, %sb: u16 }' % (tl, own, fa)
+    if shape == 'enum1_named':
+        return '%s enum T { %sV1 { %sa: u8 } }' % (tl, va, fa)
+    if shape == 'enum1_tuple':
+        return '%s enum T { %sV1(%su8) }' % (tl, va, fa)
+    if shape == 'enum2':
+        return '%s enum T { %s%sV1 { %sa: u8, %sb: u16 }, V2(u8) }' % (tl, dv, va, own, fa)
+    if shape == 'union1':
+        return '%s union T { %sa: u8 }' % (tl, fa)
+    return None
 
 
 # ---------------------------------------------------------------- C19
@@ -1663,7 +1792,7 @@ def hostile_item(h, n):
     import re as _re
     pos, ident, kind, ts = h['pos'], h['id'], h['kind'], h['traits']
     tname = ident if pos == 'typename' else 'Tx'
-    fa = ident if pos == 'field' else 'xa'
+    fa = ident if pos in ('field', 'derived') else 'xa'
     v1 = ident if pos == 'variant' else 'Va'
     gen = ''
     extra_named = ''
@@ -1710,7 +1839,7 @@ def hostile_item(h, n):
         allow.append('non_camel_case_types')
     if pos == 'constparam' and not _re.match(r'^[A-Z][A-Z0-9_]*$', ident):
         allow.append('non_upper_case_globals')
-    if pos in ('field', 'method', 'lifetime') and not snake:
+    if pos in ('field', 'method', 'lifetime', 'derived') and not snake:
         allow.append('non_snake_case')
     al = '#[allow(%s)] ' % ', '.join(allow) if allow else ''
     # the shadowing environment, minus the user's own identifier (a second item of that name in the user's scope
@@ -1719,9 +1848,173 @@ def hostile_item(h, n):
     return ('%smod m%d { #[allow(unused_imports)] use super::shadow::{%s}; use educe::Educe; %s%s }' % (al, n, ', '.join(names), helper, item)), item
 
 
+TEMPLATE_TRAITS = ['Debug', 'Clone', 'PartialEq', 'PartialOrd', 'Ord', 'Hash', 'Default', 'PartialEq, Eq', 'PartialOrd, Ord', 'Clone, Copy',
+                   'Deref', 'Deref, DerefMut', 'Into(u16)']
+
+
+def learn_templates(exe):
+    """how the generated code derives identifiers from the user's field names: expand reference items whose fields carry
+    marker names and record every new identifier that contains a marker, as (prefix, suffix); templates seen in the
+    expansion of one request share a scope."""
+    import re as _re
+    reqs = []
+    for ts in TEMPLATE_TRAITS:
+        fa = '#[educe(Deref, DerefMut)] ' if 'DerefMut' in ts else ('#[educe(Deref)] ' if 'Deref' in ts else '')
+        dv = '#[educe(Default)] ' if 'Default' in ts else ''
+        reqs.append('#[educe(%s)] struct Qqt { %sqqa: u8, qqb: u16 }' % (ts, fa))
+        reqs.append('#[educe(%s)] enum Qqt { %sQqv { %sqqa: u8, qqb: u16 }, Qqw(%su8, u16) }' % (ts, dv, fa, fa))
+    res = xchan.expand(exe, [{'id': i, 'text': t} for i, t in enumerate(reqs)])
+    templates, scopes = [], []
+    for r in res:
+        if r['outcome'] != 'ok':
+            raise ToolError('reference item refused while learning name templates: %s: %s' % (reqs[r['id']], r.get('err')))
+        sc = []
+        for w in sorted(set(_re.findall(r"[A-Za-z_][A-Za-z_0-9]*", r['out']))):
+            for mk in ('qqa', 'qqb'):
+                if mk in w and w != mk:
+                    pre, suf = w.split(mk, 1)
+                    t = {'pre': pre, 'suf': suf}
+                    if t not in templates:
+                        templates.append(t)
+                    if t not in sc:
+                        sc.append(t)
+        if sc and sc not in scopes:
+            scopes.append(sc)
+    return templates, scopes
+
+
+class HostileNamesRender(TypeRender):
+    """run-time corpora of C19: every type takes its field names from a hostile pool (template-internal names, names the
+    templates derive from a sibling field's name, raw identifiers)"""
+    POOLS = []
+    FORCED = {}
+
+    def __init__(self, idx, cfg, prop, **kw):
+        super().__init__(idx, cfg, prop, **kw)
+        self.pool = self.FORCED.get(idx) or self.POOLS[idx % len(self.POOLS)]
+
+    def item(self, derive=True):
+        # the style lint on the user's own field names is the user's business; the attribute sits on the type only and
+        # does not reach the generated impls
+        return '#[allow(non_snake_case)] ' + super().item(derive)
+
+
+def hostile_pools(templates):
+    pools = [['state', 'other', 'f', 'source', 'builder'], ['_0', '_f', '__f', '_s_x', 'x_'], ['r#type', 'r#match', 'r#fn', 'r#loop']]
+    for t in templates:
+        d = lambda u: t['pre'] + u + t['suf']
+        pools.append(['x', d('x'), d(d('x')), 'y'])
+        pools.append([d('y'), 'y', 'x', d(d('y'))])
+        for t2 in templates:
+            if t2 != t:
+                pools.append(['x', t2['pre'] + d('x') + t2['suf'], d('x'), 'y'])
+    return pools
+
+
+class SubCtx:
+    """a stage of a check with its own work directory; violations and notes go to the parent"""
+
+    def __init__(self, parent, tag):
+        self.parent = parent
+        self.prop, self.tier, self.seed = parent.prop, parent.tier, parent.seed
+        self.workdir = os.path.join(parent.workdir, tag)
+        os.makedirs(self.workdir, exist_ok=True)
+        self.coverage = {}
+        self.assumptions = []
+        self.only_cfg = None
+        self.tag = tag
+
+    def info(self, s):
+        self.parent.info('[%s] %s' % (self.tag, s))
+
+    def note(self, s):
+        self.parent.note(s)
+
+    def violation(self, key, payload):
+        self.parent.violation(dict(key, stage=self.tag), dict(payload, stage=self.tag))
+
+
+def c19_runtime(ctx, templates, candidates):
+    """behaviour under hostile names: the run-time corpora of the comparison / hash / clone models, rendered with hostile
+    field names, must still be explained by the specification (which does not mention names at all)"""
+    HostileNamesRender.POOLS = hostile_pools(templates)
+    quick = ctx.tier == 'quick'
+    stages = [
+        ('ord', 'MC_C03', lambda r: (['run_cmp::<%s, _>(&mut out, &dom, &all_pairs);' % r.name] + (['run_pcmp::<%s, _>(&mut out, &dom, &all_pairs);' % r.name] if 'PartialOrd' in r.traits else []))
+         if 'Ord' in r.traits else ['run_pcmp::<%s, _>(&mut out, &with_nan(&dom), &all_pairs);' % r.name]),
+        ('eq', 'MC_C02', lambda r: ['run_eq::<%s, _>(&mut out, &dom, &all_pairs);' % r.name]),
+        ('hash', 'MC_C05', lambda r: ['run_hashes::<%s, _>(&mut out, &dom);' % r.name]),
+        ('clone', 'MC_C07', lambda r: ['run_clone::<%s, _>(&mut out, &dom);' % r.name]),
+    ]
+    total = {'types': 0, 'events': 0, 'rejected': 0, 'states': 0, 'transitions': 0, 'mc_runs': []}
+    only = getattr(ctx, 'only_stage', None)
+    for tag, module, calls in stages:
+        if only and tag != only:
+            continue
+        sub = SubCtx(ctx, tag)
+        sub.only_cfg = ctx.only_cfg
+        corpus = rpipe.model_check(sub, [{'module': module, 'cfg': module + '_quick.cfg', 'workers': 8}], ['DoSeal'])
+        # names only matter where two fields share a scope
+        if not only:
+            corpus = [c for c in corpus if any(len(v['fields']) >= 2 for v in c['variants'])]
+        cap = 600 if quick else 4000
+        if len(corpus) > cap:
+            step = len(corpus) / float(cap)
+            corpus = [corpus[int(i * step)] for i in range(cap)]
+        # candidate-then-confirm: every pair of field names the model flags as a possible capture is confirmed (or cleared)
+        # on the real code with a fixed battery of plain configurations: both names in one variant, no field ignored
+        attr = {'ord': 'ord', 'eq': 'eq', 'hash': 'hash', 'clone': 'clone'}[tag]
+        battery, kinds_seen = [], set()
+        for c in corpus:
+            if not any(len(v['fields']) >= 2 and v['style'] == 'named' for v in c['variants']):
+                continue
+            if any(f.get(attr, 'own') != 'own' or f.get('rank', -999) != -999 for v in c['variants'] for f in v['fields']):
+                continue
+            sig = (c['kind'], tuple(c['opts']['traits']), c['opts'].get('ordvia'), c['opts'].get('eqvia'))
+            if sig in kinds_seen:
+                continue
+            kinds_seen.add(sig)
+            battery.append(c)
+        HostileNamesRender.FORCED = {1: ctx.only_names} if only else {}
+        for pair in candidates[:40]:
+            for c in battery[:10]:
+                corpus.append(c)
+                HostileNamesRender.FORCED[len(corpus)] = [pair[0], pair[1], 'y', 'z']
+        corpus_path = os.path.join(sub.workdir, 'corpus.ndjson')
+        rpipe.write_ndjson(corpus_path, corpus)
+        renders = [HostileNamesRender(i, c, 'C19') for i, c in enumerate(corpus, 1)]
+        trace, dropped = rpipe.build_and_run(sub, 'C19_' + tag, renders, calls, [0, 1])
+        for idx, msgs in sorted(dropped.items()):
+            ctx.violation({'kind': 'hostile-names-do-not-compile', 'stage': tag, 'cfg': corpus[idx - 1], 'names': renders[idx - 1].pool},
+                          {'what': 'with these field names the generated impl does not compile cleanly', 'source': renders[idx - 1].item(), 'diagnostics': msgs})
+        res = rpipe.validate_trace(sub, corpus_path, trace)
+        recs = rpipe.load_lines(trace, res['bad'])
+        seen = set()
+        for ln in res['bad']:
+            e = recs[ln]
+            if e['t'] in seen:
+                continue
+            seen.add(e['t'])
+            r = renders[e['t'] - 1]
+            ctx.violation({'kind': 'hostile-names-change-behaviour', 'stage': tag, 'cfg': corpus[e['t'] - 1], 'names': r.pool},
+                          {'what': 'with these field names the derived impl behaves differently from what the specification (which is name-independent) allows',
+                           'source': r.item(), 'event': e})
+        total['types'] += len(corpus)
+        total['events'] += res['n']
+        total['rejected'] += len(res['bad'])
+        total['states'] += sub.coverage.get('states', 0)
+        total['transitions'] += sub.coverage.get('transitions', 0)
+        total['mc_runs'] += sub.coverage.get('mc_runs', [])
+    return total
+
+
 def c19(ctx):
     import cases
     import re as _re
+    if getattr(ctx, 'only_cfg', None) is not None and getattr(ctx, 'only_stage', None):
+        # replay of one recorded run-time violation: that configuration with those field names
+        c19_runtime(ctx, [], [])
+        return
     quick = ctx.tier == 'quick'
     # 1. the identifier pool, recorded from real expansions
     corpus = rpipe.model_check(ctx, [{'module': 'MC_C01', 'cfg': 'MC_C01_quick.cfg', 'workers': 8}], ['Seal'])
@@ -1744,10 +2037,12 @@ def c19(ctx):
     pool = sorted(x for x in pool if x not in RUST_KEYWORDS and not x.startswith('probes') and x != '_')
     lower = [x for x in pool if x[0].islower() or x[0] == '_']
     facts_path = os.path.join(ctx.workdir, 'facts.json')
-    json.dump({'pool': pool, 'lower': lower}, open(facts_path, 'w'))
+    templates, scopes = learn_templates(exe)
+    json.dump({'pool': pool, 'lower': lower, 'templates': templates, 'scopes': scopes}, open(facts_path, 'w'))
+    ctx.info('name templates recorded: %s' % ', '.join(t['pre'] + '<field>' + t['suf'] for t in templates))
     ctx.info('identifier pool recorded from %d expansions: %d identifiers' % (len(reqs), len(pool)))
     st = dict(ctx.coverage)
-    res = tlcmod.run_mc('MC_C19', 'MC_C19.cfg', ctx.workdir, workers=4, timeout=600, tags=('HOSTILE',), heap='4g', extra_env={'FACTS': facts_path})
+    res = tlcmod.run_mc('MC_C19', 'MC_C19.cfg', ctx.workdir, workers=4, timeout=600, tags=('HOSTILE', 'CAPTURES'), heap='4g', extra_env={'FACTS': facts_path})
     if not res['ok']:
         raise ToolError('MC_C19 failed:\n' + '\n'.join(res['text'].split('\n')[-30:]))
     ctx.coverage['states'] = st['states'] + res['stats'].get('distinct', 0)
@@ -1760,7 +2055,7 @@ def c19(ctx):
         if k not in seen:
             seen.add(k)
             hostile.append(h)
-    if set(h['id'] for h in hostile) != set(pool):
+    if not set(pool) <= set(h['id'] for h in hostile):
         raise ToolError('MC_C19 did not use every pool identifier')
     rendered = []
     for n, h in enumerate(hostile):
@@ -1841,14 +2136,28 @@ def c19(ctx):
                                     'inside a module shadowing prelude names / in a #![no_std] crate', 'context': variant, 'source': rendered[i][2],
                             'shape': h['kind'], 'traits': h['traits'],
                             'in_process': {'outcome': acc[i]['outcome'], 'err': acc[i].get('err')}, 'rustc': p_['msgs'][:4]})
+    caps = res['tagged'].get('CAPTURES', [{}])[0]
+    if caps.get('n', 0):
+        ctx.note('capture candidates predicted by the model (pairs of field names whose derived bindings coincide in one scope): %s' % json.dumps(caps.get('pairs'))[:600])
+    ctx.info('run-time stage: behaviour under hostile field names')
+    cand = [p for p in (caps.get('pairs') or []) if all(_re.match(r'^[a-z_][a-z_0-9]*$', x) for x in p)]
+    rt = c19_runtime(ctx, templates, cand)
+    ctx.coverage['states'] = ctx.coverage.get('states', 0) + rt['states']
+    ctx.coverage['transitions'] = ctx.coverage.get('transitions', 0) + rt['transitions']
+    ctx.coverage['mc_runs'] = ctx.coverage.get('mc_runs', []) + rt['mc_runs']
     ctx.coverage.update({
-        'traces_validated_against_impl': tr['n'] - len(tr['bad']), 'trace_files': 1, 'trace_events': tr['n'], 'trace_events_rejected': len(tr['bad']),
-        'programs': len(rendered), 'evaluations': tr['n'], 'distinct_nontrivial': len(rendered),
-        'identifier_pool': pool,
+        'traces_validated_against_impl': tr['n'] - len(tr['bad']) + rt['events'] - rt['rejected'], 'trace_files': 5, 'trace_events': tr['n'] + rt['events'],
+        'trace_events_rejected': len(tr['bad']) + rt['rejected'],
+        'programs': len(rendered) + rt['types'], 'evaluations': tr['n'] + rt['events'], 'distinct_nontrivial': len(rendered) + rt['types'],
+        'identifier_pool': pool, 'name_templates': [t['pre'] + '<field>' + t['suf'] for t in templates], 'capture_candidates': caps.get('n', 0),
+        'runtime_types_with_hostile_names': rt['types'], 'runtime_events': rt['events'],
         'rule': 'identifier pool = every identifier occurring in real expansions but not in their inputs (recorded at check time); TLC enumerates pool identifier x namespace '
                 'position {field, variant, type parameter, const parameter, lifetime, type name, custom method name} x {struct, enum} x two trait sets; every item is compiled '
                 'inside a module that shadows Option/Some/None/Result/Ok/Err/Ordering/Clone/Default/Debug/... and again in a #![no_std] crate; it must be accepted and compile '
-                'without errors or warnings. Run-time behaviour under template-internal field names is judged by C02-C10 (their corpora draw field names from the same kind of pool).',
+                'without errors or warnings. Name templates (how bindings are derived from the user\'s field names: prefix/suffix pairs) are recorded from real expansions too; TLC adds a field '
+                'named like every first- and second-order derivation of its sibling, and lists capture candidates (two field names whose derived bindings coincide within one trait). '
+                'Run-time stage: the PartialOrd/Ord, PartialEq, Hash and Clone run-time corpora (types with a multi-field variant) are rendered with hostile field-name pools '
+                '(template-internal names, derived names of a sibling in both orders, raw identifiers), run, and validated against the name-independent specification (TraceR).',
         'samples': [{'source': rendered[0][1]}, {'source': rendered[len(rendered) // 2][1]}],
     })
     ctx.assumptions += COMMON_ASSUMPTIONS + ['the specification contributes the quantifier and the expectation only; Rust name resolution is not modelled (DESIGN.md section 10)']
